@@ -447,7 +447,8 @@ FLOAT_POOL = ["0", "0.0", "1.5", "-1.5", "1e3", "1e-3", "nan", "NaN", "-nan", "i
               "0.30000000000000004", "1e308", "2.5e-5"]
 BOOL_POOL = ["1", "yes", "true", "on", "0", "no", "false", "off", "TRUE", "Yes", "oN", "OFF", "", " true", "t",
              "2", "tru\u0435", "\u212a", "o\u017f\u017f"]
-STR_POOL = ["abc", "Hello World", "  padded  ", "x", "a\\nb", "a\\tb", "c:\\\\new", "http", "https", "socks4",
+STR_POOL = ["abc", "Hello World", "  padded  ", "x", "a\\nb", "a\\tb", "c:\\\\new", "C:\\\\\\\\new\\\\\\\\tunes",
+            "\\\\\\\\\\\\\\\\nas\\\\\\\\share", "q\\\\\\\\\\\\t", "http", "https", "socks4",
             "socks5", ".m3u", ".m3u8", "latin-1", "ÅÉ", "MiXeD", "\\\\", "%(levelname)s", "a;b", "#c", "a=b",
             "\U0001F600", "x" * 40, "İstanbul", "\u212aelvin"]
 PATH_POOL = ["/tmp", "/tmp/x/../y", "~", "~/music", "~root/x", "~nosuchuser/x", "~nosuchuser", "$XDG_CACHE_DIR/m",
